@@ -204,8 +204,10 @@ def check_case(spec):
         cmp["time"] = abs(ta - tb) / max(abs(ta), 1e-12)
         cmp["induced"] = float(np.max(np.abs(a["induced_vector_potential"] - b["induced_vector_potential"])))
         # physical sheet current in uA/um, relative to its own maximum plus a small fraction of the scale K0
-        # (an undriven run carries only rounding-level currents, whose relative difference is meaningless)
-        cmp["K_uA_per_um"] = float(np.max(np.abs(ka - kb))) / (float(np.max(np.abs(ka))) + 1e-6 * k0_ua_um)
+        # (an undriven run, or one whose drive has been switched off, carries only rounding-level currents whose relative
+        #  difference is meaningless: the dimensionless currents agree to ~1e-12 of the scale K0, so the floor is 1e-3 K0;
+        #  1e-6 K0 was too small - found by the thorough tier)
+        cmp["K_uA_per_um"] = float(np.max(np.abs(ka - kb))) / (float(np.max(np.abs(ka))) + 1e-3 * k0_ua_um)
         for k, v in cmp.items():
             res.stat(k, v)
         bad = {k: v for k, v in cmp.items() if v > 1e-7}
@@ -214,11 +216,15 @@ def check_case(spec):
             break
     # ---- physical outputs computed from the solutions (SI): field and vector potential above the film
     if not res.violations:
-        for name, xa, xb in (("field_at_position [T]", Bz_a, Bz_b), ("vector_potential_at_position [T m]", Av_a, Av_b)):
-            scale = float(np.max(np.abs(xa))) + 1e-300
+        # natural scales of the outputs: the field mu_0 K0 of a sheet current K0, and that field times xi; values far below
+        # them come from rounding-level currents and are compared relative to a floor of 1e-3 of the scale
+        b_scale = orc.MU0 * k0_ua_um
+        a_scale = b_scale * la["xi"] * orc.LENGTH[da["lu"]]
+        for name, xa, xb, floor in (("field_at_position [T]", Bz_a, Bz_b, 1e-3 * b_scale), ("vector_potential_at_position [T m]", Av_a, Av_b, 1e-3 * a_scale)):
+            scale = float(np.max(np.abs(xa))) + floor
             err = float(np.max(np.abs(xa - xb))) / scale
-            res.stat("physical_output", err if scale > 1e-30 else 0.0)
-            if scale > 1e-30 and err > 1e-6:
+            res.stat("physical_output", err)
+            if err > 1e-6:
                 res.fail("C08.physical_outputs", f"{name} of the last frame differs between {ua} and {ub} by {err:.3e} relative (max |value| {scale:.3e})")
     # ---- absolute identity: gauge phase around every triangle = 2 pi * flux / Phi_0
     if fa["kind"] in ("constant", "float", "gauge_param"):
